@@ -247,9 +247,6 @@ def cWait (c0 : Core) : Core :=
 def cStarted (c0 : Core) : Core :=
   { cWait c0 with started := true, headers := some [], gen := .startLine }
 
-def reqVersion (v : Bytes) : Option (Nat × Nat) :=
-  if startsWith sHTTP10 v then some (1, 0) else some (1, 1)
-
 /-- `Requestant` after the request line -/
 def reqAfterStart (c0 : Core) (m u v : Bytes) : Core :=
   { cStarted c0 with method := m, url := strip u, version := reqVersion v, gen := .hdrs [] }
@@ -519,7 +516,7 @@ theorem chunkEnd_ok (c : Core) (d : Bytes) (pm : Parms) (hg : c.gen = .chunkEnd 
 theorem trailerEnd_ok (c : Core) (pm : Parms) (Tr : Hdrs) (hg : c.gen = .chunkTrailer pm Tr)
     (hcl : c.closed = false) (hT : Tr.length ≤ MAX_HEADERS) (hmax : 0 < c.max) :
     Elem.ok ⟨crlf, (· = c),
-      doneCore { c with parms := updParms c.parms pm, trails := if Tr = [] then c.trails else some Tr } c.body⟩ := by
+      doneCore { c with parms := updParms c.parms pm, trails := trailsOf c.trails Tr } c.body⟩ := by
   refine ⟨by simp [crlf], ?_, ?_, ?_⟩
   · intro c' hc' tail
     subst hc'
@@ -780,7 +777,7 @@ def lastBytes (ll : Bytes) (ts : List Bytes) : Bytes := ll ++ (crlf ++ (linesByt
 def chunkedDone (cB : Core) (ks : List Chunk) (pm0 : Parms) (Tr : Hdrs) : Core :=
   doneCore
     { cB with parms := updParms (chunksParms cB.parms ks) pm0,
-              trails := if Tr = [] then cB.trails else some Tr }
+              trails := trailsOf cB.trails Tr }
     (cB.body ++ chunksData ks)
 
 theorem tail_chunked (cB : Core) (hg : cB.gen = .chunkSize) (hcl : cB.closed = false) (hmax : 0 < cB.max)
